@@ -182,7 +182,10 @@ CLAIMED.update({
              "order, and never lets an exception out; the same for shutdown; hence after any stream every processor (failing or healthy) has "
              "the complete stream and exactly one shutdown. Tied to /repo by exhaustive fault enumeration: a processor raising at EVERY event "
              "index of every generated execution's stream, on every event, and at shutdown (sync and suspending async processors, both "
-             "runners), with status/values/error/invocations compared to the processor-free run and a healthy processor's stream checked.",
+             "runners), with status/values/error/invocations compared to the processor-free run and a healthy processor's stream checked. "
+             "Processors that CONSUME event payloads instead of raising: DispatchPayload.v proves that an event carrying a copy of the scheduler's "
+             "decision list leaves every pre-existing object unchanged under any processor actions, and refutes the aliased event; every program is "
+             "also run beside a payload-emptying processor.",
         design_ref="DESIGN.md section 5 C13",
         note="That no dispatch site outside the dispatcher lets an exception escape is exactly what the fault enumeration over the real code "
              "checks; the model covers emit/emit_async/shutdown/shutdown_async.",
